@@ -563,6 +563,28 @@ func (r *run) walkList(l capnp.List, depth int) {
 	}
 }
 
+// mayHoldLongList reports whether any word of the delivered segments, read as a list pointer or
+// as a composite tag, announces more than thresh (and fewer than 2^29, i.e. not a negative
+// number of) elements.  An over-approximation: data words count too.
+func (r *run) mayHoldLongList(thresh uint64) bool {
+	for _, sg := range r.segs {
+		for i := 0; i+8 <= len(sg); i += 8 {
+			w := binary.LittleEndian.Uint64(sg[i:])
+			switch w & 3 {
+			case 1:
+				if w>>35 > thresh {
+					return true
+				}
+			case 0:
+				if c := uint64(uint32(w) >> 2); c > thresh && c < 1<<29 {
+					return true
+				}
+			}
+		}
+	}
+	return false
+}
+
 // consumers: the recursive read-side operations on the root.
 func (r *run) consumers(msg *capnp.Message, pristine *capnp.Message) {
 	s := r.s
@@ -580,6 +602,21 @@ func (r *run) consumers(msg *capnp.Message, pristine *capnp.Message) {
 		// pogs and the text encoder read the schema for every list element, about a hundred
 		// schedule points each: 32 KiB of message keeps such a run inside its step budget
 		cap = 32 << 10
+	}
+	// The cap only applies when some word of the message could be a list pointer or a composite
+	// tag announcing that many elements; otherwise the configured limit stands (a negative
+	// element count, for instance, is only reachable under the 8 GiB limit).
+	thresh := uint64(1 << 16)
+	if r.concurrent {
+		thresh = 1 << 10
+	}
+	if r.negLen || !r.mayHoldLongList(thresh) {
+		// (a list with a negative length, seen by the walker, is the other thing that only the
+		// large limits admit; nothing iterates over it)
+		cap = 64 << 20
+		if msg.TraverseLimit != 0 {
+			cap = msg.TraverseLimit
+		}
 	}
 	if msg.TraverseLimit != 0 && msg.TraverseLimit < cap {
 		msg.ResetReadLimit(msg.TraverseLimit)
